@@ -31,7 +31,7 @@ from sa import engine                      # noqa: E402
 from sa.core import Repo                   # noqa: E402
 
 MIRROR = {ast.Lt: ast.Gt, ast.Gt: ast.Lt, ast.LtE: ast.GtE, ast.GtE: ast.LtE}
-OPS = ('swap-eq', 'mirror-cmp', 'aug-expand', 'not-eq', 'if-flip', 'pass-insert')
+OPS = ('swap-eq', 'mirror-cmp', 'aug-expand', 'not-eq', 'if-flip', 'pass-insert', 'slice0', 'range0', 'extract-temp')
 
 
 def find_fn(tree, lname):
@@ -67,7 +67,48 @@ def sites(fn, op):
             out.append(i)
         elif op == 'pass-insert' and n is fn:
             out.append(i)
+        elif op == 'slice0' and isinstance(n, ast.Subscript) and isinstance(n.slice, ast.Slice) and n.slice.step is None and (
+                (isinstance(n.slice.lower, ast.Constant) and n.slice.lower.value == 0) or n.slice.lower is None):
+            out.append(i)
+        elif op == 'range0' and isinstance(n, ast.Call) and isinstance(n.func, ast.Name) and n.func.id == 'range' and (
+                len(n.args) == 1 or (len(n.args) == 2 and isinstance(n.args[0], ast.Constant) and n.args[0].value == 0)):
+            out.append(i)
+        elif op == 'extract-temp' and isinstance(n, (ast.Assign, ast.AugAssign, ast.Return, ast.Expr, ast.If)):
+            # a call / subscript / attribute-chain sub-expression of a simple statement (or of an if test)
+            host = n.test if isinstance(n, ast.If) else n.value
+            if host is not None and _extractable(host) is not None:
+                out.append(i)
     return out
+
+
+def _extractable(host):
+    """First proper sub-expression of `host` (pre-order) that is a Call or Subscript in Load context without side-effect
+    ordering issues (we take the FIRST evaluated one: leftmost-innermost is approximated by the first in ast.walk whose own
+    sub-expressions are only names / constants / attributes)."""
+    for sub in ast.walk(host):
+        if sub is host:
+            continue
+        if isinstance(sub, (ast.Call, ast.Subscript)) and isinstance(getattr(sub, 'ctx', ast.Load()), ast.Load):
+            inner = [x for x in ast.walk(sub) if x is not sub and isinstance(x, (ast.Call, ast.Lambda, ast.IfExp, ast.BoolOp, ast.NamedExpr))]
+            if not inner and not _under_shortcircuit(host, sub):
+                return sub
+    return None
+
+
+def _under_shortcircuit(host, sub):
+    for p in ast.walk(host):
+        if isinstance(p, (ast.BoolOp, ast.IfExp, ast.Lambda, ast.ListComp, ast.GeneratorExp, ast.SetComp, ast.DictComp)):
+            if any(x is sub for x in ast.walk(p)) and p is not sub:
+                # inside a short-circuit / deferred context: extraction would change evaluation
+                if isinstance(p, ast.BoolOp) and any(x is sub for x in ast.walk(p.values[0])):
+                    continue
+                return True
+    # must also be the first call evaluated in host: no other call textually before it
+    for x in ast.walk(host):
+        if isinstance(x, ast.Call) and x is not sub and not any(y is sub for y in ast.walk(x)) and \
+                (x.lineno, x.col_offset) < (sub.lineno, sub.col_offset):
+            return True
+    return False
 
 
 def apply(fn, op, idx):
@@ -94,6 +135,34 @@ def apply(fn, op, idx):
         elif op == 'if-flip':
             n.test = ast.UnaryOp(op=ast.Not(), operand=n.test)
             n.body, n.orelse = n.orelse, n.body
+        elif op == 'slice0':
+            n.slice.lower = None if n.slice.lower is not None else ast.Constant(value=0)
+        elif op == 'range0':
+            n.args = [n.args[1]] if len(n.args) == 2 else [ast.Constant(value=0), n.args[0]]
+        elif op == 'extract-temp':
+            host = n.test if isinstance(n, ast.If) else n.value
+            sub = _extractable(host)
+            tmp = 'tmp_x9'
+            new = ast.Assign(targets=[ast.Name(id=tmp, ctx=ast.Store())], value=copy.deepcopy(sub))
+
+            class R(ast.NodeTransformer):
+                def visit(self, node):
+                    if node is sub:
+                        return ast.Name(id=tmp, ctx=ast.Load())
+                    return super().visit(node)
+            if isinstance(n, ast.If):
+                n.test = R().visit(n.test)
+            else:
+                n.value = R().visit(n.value)
+            for p in ast.walk(fn):
+                for field in ('body', 'orelse', 'finalbody'):
+                    lst = getattr(p, field, None)
+                    if isinstance(lst, list) and any(x is n for x in lst):
+                        k = [j for j, x in enumerate(lst) if x is n][0]
+                        # `elif` chains: an If that is the sole statement of an orelse stays valid python after insertion
+                        lst.insert(k, ast.copy_location(new, n))
+                        return True
+            return False
         elif op == 'pass-insert':
             k = 1 if (n.body and isinstance(n.body[0], ast.Expr) and isinstance(n.body[0].value, ast.Constant)
                       and isinstance(n.body[0].value.value, str)) else 0
